@@ -38,7 +38,7 @@
 #define B_PON 0x80
 _Static_assert(ESR_OPC == B_OPC && ESR_REQ == B_RQC && ESR_QER == B_QYE && ESR_DER == B_DDE && ESR_EER == B_EXE &&
                ESR_CER == B_CME && ESR_URQ == B_URQ && ESR_PON == B_PON, "ieee488.h disagrees with IEEE 488.2 on the ESR bit numbers");
-_Static_assert(SCPI_REG_COUNT == 10, "custom registers are outside this check");
+_Static_assert(SCPI_REG_COUNT >= 10, "the ten standard registers come first; user registers (build flavour custreg) are exercised by the cascade phase only");
 
 #define NREG 10
 static const char * const regname[NREG] = { "STB", "SRE", "ESR", "ESE", "OPER", "OPERE", "OPERC", "QUES", "QUESE", "QUESC" };
@@ -828,11 +828,60 @@ static void sweep_run(uint64_t idx, vh_rng_t * rng) {
     flush_counters();
 }
 
+/* ---- phase "cascade" (build flavour custreg only): user register groups cascaded below the standard CONDITION registers --------
+ * random walks over writes to the user registers and the standard ones; after every operation:
+ *   C11: status-byte bits 3 / 7 / 6 still equal their summaries (the statement's clauses, unchanged),
+ *   C12: every condition-register bit that went 0 -> 1 during the operation - whether written directly or raised by a group below it -
+ *        is latched in its event register; MSS 0 -> 1 is announced. */
+#if USE_CUSTOM_REGISTERS
+static uint64_t cascade_count(int thorough) { return vh_scaled(thorough ? 40000 : 4000); }
+static void cascade_run(uint64_t idx, vh_rng_t * rng) {
+    static const scpi_reg_name_t writable[] = { USER_REG_QUES_VOLT, USER_REG_QUES_VOLTE, USER_REG_QUES_VOLTC, USER_REG_OPER_SUB, USER_REG_OPER_SUBE,
+        SCPI_REG_QUESE, SCPI_REG_OPERE, SCPI_REG_SRE, SCPI_REG_QUES, SCPI_REG_OPER, SCPI_REG_ESE };
+    static const char * const wname[] = { "QUES:VOLT", "QUES:VOLT:ENAB", "QUES:VOLT:COND", "OPER:SUB", "OPER:SUB:ENAB", "QUESE", "OPERE", "SRE", "QUES", "OPER", "ESE" };
+    vh_ctx_t * v = new_ctx(2); scpi_t * c = v->ctx; int step; vh_buf_t hist = { 0, 0, 0 };
+    (void) idx;
+    for (step = 0; step < 120; step++) {
+        int k = (int) vh_below(rng, 11); scpi_reg_val_t val = (scpi_reg_val_t) (vh_chance(rng, 1, 2) ? (1u << vh_below(rng, 16)) | (vh_below(rng, 2) ? 0x0001 : 0) | (vh_below(rng, 2) ? 0x0200 : 0) : vh_rand(rng));
+        scpi_reg_val_t b_quesc = SCPI_RegGet(c, SCPI_REG_QUESC), b_operc = SCPI_RegGet(c, SCPI_REG_OPERC), b_voltc = SCPI_RegGet(c, USER_REG_QUES_VOLTC), b_stb = SCPI_RegGet(c, SCPI_REG_STB);
+        scpi_reg_val_t a_quesc, a_operc, a_voltc, stb, sre;
+        if (vh_chance(rng, 1, 4)) val = 0;
+        srq.n = 0;
+        vh_buf_printf(&hist, "%s:=0x%04x ", wname[k], val);
+        if (hist.len > 600) { memmove(hist.p, hist.p + 300, hist.len - 300); hist.len -= 300; }
+        SCPI_RegSet(c, writable[k], val);
+        vh_eval(1);
+        a_quesc = SCPI_RegGet(c, SCPI_REG_QUESC); a_operc = SCPI_RegGet(c, SCPI_REG_OPERC); a_voltc = SCPI_RegGet(c, USER_REG_QUES_VOLTC);
+        stb = SCPI_RegGet(c, SCPI_REG_STB); sre = SCPI_RegGet(c, SCPI_REG_SRE); (void) sre; (void) a_quesc; (void) a_operc; (void) a_voltc; (void) b_stb; (void) b_voltc; (void) b_quesc; (void) b_operc;
+#if MON11
+        if (((stb & 0x08) != 0) != ((SCPI_RegGet(c, SCPI_REG_QUES) & SCPI_RegGet(c, SCPI_REG_QUESE)) != 0)) { vh_violation(PROP ":cascade-summary-bit3", "after %s: STB=0x%02x QUES=0x%04x QUESE=0x%04x", vh_buf_cstr(&hist), stb, SCPI_RegGet(c, SCPI_REG_QUES), SCPI_RegGet(c, SCPI_REG_QUESE)); break; }
+        if (((stb & 0x80) != 0) != ((SCPI_RegGet(c, SCPI_REG_OPER) & SCPI_RegGet(c, SCPI_REG_OPERE)) != 0)) { vh_violation(PROP ":cascade-summary-bit7", "after %s: STB=0x%02x OPER=0x%04x OPERE=0x%04x", vh_buf_cstr(&hist), stb, SCPI_RegGet(c, SCPI_REG_OPER), SCPI_RegGet(c, SCPI_REG_OPERE)); break; }
+        if (((stb & 0x40) != 0) != (((stb & ~0x40) & sre & ~0x40) != 0)) { vh_violation(PROP ":cascade-mss", "after %s: STB=0x%02x SRE=0x%04x", vh_buf_cstr(&hist), stb, sre); break; }
+#endif
+#if MON12
+        if ((a_quesc & ~b_quesc) & ~SCPI_RegGet(c, SCPI_REG_QUES)) { vh_violation(PROP ":condition-rise-not-latched:raised-by-cascaded-group", "after %s: QUES:COND 0x%04x -> 0x%04x but QUES event = 0x%04x", vh_buf_cstr(&hist), b_quesc, a_quesc, SCPI_RegGet(c, SCPI_REG_QUES)); break; }
+        if ((a_operc & ~b_operc) & ~SCPI_RegGet(c, SCPI_REG_OPER)) { vh_violation(PROP ":condition-rise-not-latched:raised-by-cascaded-group", "after %s: OPER:COND 0x%04x -> 0x%04x but OPER event = 0x%04x", vh_buf_cstr(&hist), b_operc, a_operc, SCPI_RegGet(c, SCPI_REG_OPER)); break; }
+        if ((a_voltc & ~b_voltc) & ~SCPI_RegGet(c, USER_REG_QUES_VOLT)) { vh_violation(PROP ":condition-rise-not-latched:user-group", "after %s: QUES:VOLT:COND 0x%04x -> 0x%04x but event = 0x%04x", vh_buf_cstr(&hist), b_voltc, a_voltc, SCPI_RegGet(c, USER_REG_QUES_VOLT)); break; }
+        if (!(b_stb & 0x40) && (stb & 0x40) && srq.n == 0) { vh_violation(PROP ":mss-rise-not-announced:cascade", "after %s: MSS rose (STB 0x%02x -> 0x%02x) without a service-request callback", vh_buf_cstr(&hist), b_stb, stb); break; }
+        if ((a_quesc & ~b_quesc) || (a_operc & ~b_operc)) vh_count("cascade.parent_condition_bit_raised_by_child_group", 1);
+#endif
+        vh_count("cascade.steps", 1);
+    }
+    vh_distinct(vh_hash(hist.p, hist.len, 91));
+    vh_buf_free(&hist);
+    vh_ctx_free(v);
+}
+#else
+static uint64_t cascade_count(int thorough) { (void) thorough; return 0; }
+static void cascade_run(uint64_t idx, vh_rng_t * rng) { (void) idx; (void) rng; }
+#endif
+
 int main(int argc, char ** argv) {
     static const vh_phase_t phases[] = {
         { "sweep", sweep_count, sweep_run }, /* C12 only; first, so that the shortest witnesses are reported */
         { "bfs", bfs_count, bfs_run },
         { "walk", walk_count, walk_run },
+        { "cascade", cascade_count, cascade_run },
     };
     vh_require("bfs.states");
     vh_require("walk.steps");
@@ -853,5 +902,8 @@ int main(int argc, char ** argv) {
     vh_require("c12.srq.callbacks");
     vh_require("c12.srq.operations_with_mss_clear_before_and_after");
 #endif
-    return vh_main(argc, argv, PROP, phases, 3);
+    #if USE_CUSTOM_REGISTERS
+    vh_require("cascade.steps");
+#endif
+    return vh_main(argc, argv, PROP, phases, 4);
 }
